@@ -5,7 +5,7 @@
 
 namespace c05 {
 
-enum St : uint8_t { S_SPAWN, S_PAUSE, S_RESOLVE_DISCARD, S_RESOLVE_AWAIT, S_RESOLVE_KEEP, S_AWAIT, S_LOCK, S_UNLOCK_DISCARD, S_UNLOCK_AWAIT, S_PUSH, S_POP, S_START_NESTED, S_NESTED_CALL, S_PARK, S_UNPARK, S_COUNT };
+enum St : uint8_t { S_SPAWN, S_PAUSE, S_RESOLVE_DISCARD, S_RESOLVE_AWAIT, S_RESOLVE_KEEP, S_AWAIT, S_LOCK, S_UNLOCK_DISCARD, S_UNLOCK_AWAIT, S_PUSH, S_POP, S_START_NESTED, S_NESTED_CALL, S_PARK, S_UNPARK, S_POOL_AWAIT, S_POOL_STOP, S_COUNT };
 struct Step { uint8_t kind, arg; };
 constexpr int NF = 4, MAXC = 8;
 struct Prog { std::vector<std::vector<Step>> co; std::vector<Step> main_ops; };
@@ -32,7 +32,9 @@ inline Prog decode(hz::Reader &r) {
 static const char *sn[] = {"spawn+detach", "pause", "resolve(discard)", "co_await resolve", "resolve(kept, released later)", "await future", "lock", "unlock(discard)", "co_await unlock", "push", "pop",
                            "start() a child that runs nested and finishes without suspending (or suspends on a private future and is released by the parent)",
                            "coro_queue::install_queue_and_call (explicit nested activation: flushes the queue before it returns)",
-                           "park (suspend on a hand-written awaiter that keeps the handle)", "coro_queue::resume(handle of the longest parked coroutine)"};
+                           "park (suspend on a hand-written awaiter that keeps the handle)", "coro_queue::resume(handle of the longest parked coroutine)",
+                           "co_await thread_pool (its only worker is occupied: the coroutine waits in the pool's queue until the pool is stopped, which cancels it)",
+                           "thread_pool::stop() (every coroutine waiting in the pool's queue is cancelled, i.e. made ready)"};
 inline std::string describe(const Prog &p) {
     hz::Desc d; d << (unsigned)p.co.size() << " coroutines;";
     for (size_t i = 0; i < p.co.size(); i++) { d << " C" << (unsigned)i << ":"; for (auto &s : p.co[i]) { d << " " << sn[s.kind]; if (s.kind >= S_RESOLVE_DISCARD && s.kind <= S_AWAIT) d << "#" << (unsigned)s.arg; } d << ";"; }
@@ -50,6 +52,10 @@ struct Model {
     // not queued): the loop continues whenever control returns to it, and only then is the queue flushed
     std::vector<int> loop;
     std::vector<int> nest;                     // coroutines waiting inside an explicit nested activation (install_queue_and_call)
+    // coroutines cancelled by a thread_pool::stop() that ORDINARY code called: each one is resumed by a separate activation
+    // (it runs, everything it readied is flushed, then the next one) - any of them may be next once everything else is drained
+    std::vector<int> serial;
+    std::vector<int> pool_waiters; bool pool_stopped = false;
     enum Yield { RETURN_TO_RESUMER, TRANSFER_QUEUE, TRANSFER_DIRECT } yield = RETURN_TO_RESUMER;
     bool fut_resolved[NF] = {}; std::vector<int> fut_waiters[NF];
     int mx_owner = -1; std::deque<int> mx_waiters;
@@ -61,11 +67,13 @@ struct Model {
     const std::vector<int> *candidates() {
         if (yield == TRANSFER_DIRECT && !direct.empty()) return &direct;
         if (yield == RETURN_TO_RESUMER && !loop.empty() && nest.empty()) return &loop;     // (a nested activation flushes the QUEUE; the outer direct-resume loop continues only after it returned)
-        return ready.empty() ? nullptr : &ready.front();
+        if (!ready.empty()) return &ready.front();
+        return serial.empty() ? nullptr : &serial;
     }
     bool allowed_next(int id) { auto c = candidates(); return c && std::find(c->begin(), c->end(), id) != c->end(); }
     void take(int id) {
         if (candidates() == &loop) { loop.erase(std::find(loop.begin(), loop.end(), id)); running = id; return; }
+        if (candidates() == &serial) { serial.erase(std::find(serial.begin(), serial.end(), id)); running = id; yield = RETURN_TO_RESUMER; return; }
         if (candidates() == &direct) {
             // direct transfer out of an awaited suspend point: the others are queued (one batch), then the awaiting coroutine
             std::vector<int> rest; for (int x : direct) if (x != id) rest.push_back(x);
@@ -84,10 +92,19 @@ struct World {
     const Prog *p; Model m;
     std::unique_ptr<cocls::future<int>> fut[NF]; cocls::promise<int> prom[NF];
     cocls::mutex mx; cocls::queue<int> q;
+    std::unique_ptr<cocls::thread_pool> pool;      // one worker, occupied by a job that lasts until the pool is stopped
     // children started nested that suspend on a private gate: gate and result future outlive the parent's frame
     std::vector<std::unique_ptr<cocls::future<int>>> nested_gates; std::vector<std::unique_ptr<cocls::future<void>>> nested_results;
     std::vector<std::pair<int, std::coroutine_handle<>>> parked;      // coroutines suspended on the hand-written awaiter, oldest first
     int resumes_while_running = 0;
+    cocls::thread_pool &the_pool() {
+        if (!pool) {
+            pool.reset(new cocls::thread_pool(1));
+            cocls::thread_pool *pp = pool.get();
+            pool->run_detached([pp] { while (!pp->is_stopped()) vrt::yield(); });
+        }
+        return *pool;
+    }
     bool running_flag[MAXC] = {};
     int step_events = 0;
 
@@ -114,7 +131,7 @@ struct World {
     // ordinary code: after every operation everything that was readied has run (full drain)
     void check_drained(const char *after) {
         HZ_CHECK(m.running == -1, "%s returned to ordinary code while the model still has C%d running", after, m.running);
-        HZ_CHECK(m.ready.empty() && m.direct.empty() && m.loop.empty(), "%s returned to ordinary code although ready coroutines were left un-run: %s", after, front_str().c_str());
+        HZ_CHECK(m.ready.empty() && m.direct.empty() && m.loop.empty() && m.serial.empty(), "%s returned to ordinary code although ready coroutines were left un-run: %s", after, front_str().c_str());
         HZ_CHECK(!cocls::coro_queue::is_active(), "%s: coroutine queue still active in ordinary code", after);
     }
 };
@@ -201,6 +218,23 @@ inline cocls::async<void> script(World *w, int id) {
             } break;
             case S_PUSH: m.add_batch(w->model_push()); w->q.push(5); break;
             case S_PARK: w->model_suspend(); co_await ParkAw{w, id}; break;
+            case S_POOL_AWAIT: {
+                cocls::thread_pool &pool = w->the_pool();
+                // a stopped pool cancels at once: the coroutine is made ready (queued) from inside its own suspension
+                if (m.pool_stopped) m.add_batch({id}); else m.pool_waiters.push_back(id);
+                w->model_suspend();
+                bool cancelled = false;
+                try { co_await pool; } catch (const cocls::await_canceled_exception &) { cancelled = true; }
+                HZ_CHECK(cancelled, "co_await pool continued without exception although the pool's only worker never got to it");
+            } break;
+            case S_POOL_STOP: {
+                cocls::thread_pool &pool = w->the_pool();
+                // stop() called by a running coroutine: whoever is cancelled becomes ready - and waits until this coroutine suspends
+                std::vector<int> ws; ws.swap(m.pool_waiters); m.pool_stopped = true;
+                m.add_batch(ws);
+                pool.stop();
+                w->on_run(id, "after thread_pool::stop() returned");
+            } break;
             case S_UNPARK: if (!w->parked.empty()) {
                 // a handle passed to coro_queue::resume() while a coroutine is running is QUEUED (also when the queue is empty)
                 auto pk = w->parked.front(); w->parked.erase(w->parked.begin());
@@ -270,12 +304,14 @@ inline void run(hz::Reader &r) {
             bool did = false;
             for (int j = 0; j < NF; j++) if (!m.fut_resolved[j]) { w->main_release(w->model_resolve(j)); w->prom[j](1); w->check_drained("resolve"); did = true; }
             if (!m.q_waiters.empty()) { w->main_release(w->model_push()); w->q.push(5); w->check_drained("push"); did = true; }
+            if (w->pool && !m.pool_stopped) { m.serial.swap(m.pool_waiters); m.pool_stopped = true; m.readied_by_discard += (unsigned)m.serial.size(); m.yield = Model::RETURN_TO_RESUMER; w->pool->stop(); w->check_drained("thread_pool::stop() from ordinary code"); did = true; }
             if (!w->parked.empty()) { auto pk = w->parked.front(); w->parked.erase(w->parked.begin()); w->main_release({pk.first}); cocls::coro_queue::resume(pk.second); w->check_drained("coro_queue::resume from ordinary code"); did = true; }
             HZ_CHECK(did || m.finished == (int)p.co.size(), "harness: coroutines blocked with nothing left to satisfy (finished %d of %zu)", m.finished, p.co.size());
         }
         HZ_CHECK(m.finished == (int)p.co.size(), "%d of %zu coroutines finished", m.finished, p.co.size());
         for (int j = 0; j < NF; j++) if (!m.fut_resolved[j]) { w->prom[j](1); m.fut_resolved[j] = true; }
         w->check_drained("end");
+        w->pool.reset();
         for (auto &f : w->nested_results) HZ_CHECK(f->ready(), "a nested child that was released did not finish");
         readied = m.readied_by_discard; maxq = m.max_ready; events = w->step_events;
     }
@@ -291,7 +327,7 @@ namespace hz {
 static const Info I = {
     "C05", 1, 130, 100000, false, true,
     "stateful byte-decoded programs (rapidcheck), single thread: 1..8 scripted coroutines with up to 6 steps each over {spawn+detach child, pause, resolve promise j with the suspend point discarded / co_awaited / kept and released later, "
-    "await future j, mutex lock, unlock discarded / co_awaited, queue push, queue pop, start() of a child that runs nested (finishing at once, or suspending on a private future: control returns to the parent, the child continues from the queue), explicit nested activation, parking on a hand-written awaiter and coro_queue::resume() of a parked handle}, driven by 1..4 operations from ordinary code (spawn, resolve, push) and then settled until every coroutine finished. Oracle = online comparison with a reference "
+    "await future j, mutex lock, unlock discarded / co_awaited, queue push, queue pop, start() of a child that runs nested (finishing at once, or suspending on a private future: control returns to the parent, the child continues from the queue), explicit nested activation, parking on a hand-written awaiter and coro_queue::resume() of a parked handle, co_await on a thread pool whose only worker is occupied and thread_pool::stop() (which cancels, i.e. readies, the coroutines waiting in the pool's queue)}, driven by 1..4 operations from ordinary code (spawn, resolve, push) and then settled until every coroutine finished. Oracle = online comparison with a reference "
     "model of the ready queue (FIFO of batches; the order inside the batch readied by ONE operation is not asserted): a coroutine may only gain control when the model says the running one suspended/finished and it is in the front batch "
     "(run-to-suspension, FIFO, pause = strict round-robin), co_await on a suspend point transfers to one of its coroutines, queues the others and re-queues the awaiting one last, nobody runs between resolving and releasing a kept suspend point, "
     "and every return to ordinary code finds the model queue empty and coro_queue inactive (full drain); allocation balance 0. Non-trivial = >=3 coroutines and >=1 coroutine readied through a discarded suspend point; distinct = hash(decoded program).",
